@@ -241,7 +241,7 @@ CLAIMED = {
              "server-to-client loop has no parser and is covered by the loopback oracle only.",
         design="5/C19", technique="Coq proof (relay network determinacy; sanitiser) + in-process page dissection + loopback relay differential with concurrent status polling"),
     "C20": dict(
-        text="Theorems C20_consistent, C20_closed_forms: the complete table (4098 rows) produced on every run by running the real "
+        text="(The table's timestamp columns: r_ts = the timestamp is extracted from EVERY frame shape tried - a full frame and frames of 7, 8, 12, 21 and 22 payload bytes holding just type, station id and timestamp; r_tsany = from ANY of them; both must equal 'is an MSM type'.) Theorems C20_consistent, C20_closed_forms: the complete table (4098 rows) produced on every run by running the real "
              "classification functions, decoders, timestamp extraction, Analyse dispatch and String on every type and sentinel is "
              "checked row by row by the kernel (vm_compute over a finite domain, bound stated in the theorem).",
         note="Trusted: Coq kernel incl. vm_compute; the dumper harness/cmd/classdump and the determinism of the functions (C15).",
